@@ -122,7 +122,12 @@ Definition shared0 : shared :=
 (* LoadAndDel: the Repaired algorithm except that UnregisterSeries removes with series.LoadAndDelete(h) instead of
    CompareAndDelete(h, entry) (seeded change C20_n2) — only used for a _refuted witness *)
 Inductive variant := Defective | Repaired | LoadAndDel.
-Record cfg := { c_kind : kind; c_cap : Z;       (* MaxSeriesPerMetric after defaulting; <= 0 means unbounded *)
+(* cardinality.go / registry.go: a registration that leaves MaxSeriesPerMetric at its zero value gets the default cap;
+   a negative value means "no cap" (every check is guarded by MaxSeriesPerMetric > 0) *)
+Definition default_cap : Z := 10000.               (* DefaultMaxSeriesPerMetric *)
+Definition eff_cap (raw : Z) : Z := if raw =? 0 then default_cap else raw.
+
+Record cfg := { c_kind : kind; c_cap : Z;       (* eff_cap of the registered MaxSeriesPerMetric; <= 0 means unbounded *)
                 c_nlabels : nat; c_buckets : list Z; c_variant : variant }.
 
 Inductive href := RTomb | RH (id : nat).
